@@ -1059,3 +1059,49 @@ func cByteLength(P *CProgram, n *CNode, depth int) bool {
 	}
 	return false
 }
+
+// ---------- R12.8: who may classify bytes ----------
+
+// Bytes are classified (lead byte / continuation byte / width) only by the functions whose tables R12.3 evaluates over all
+// 256 byte values. A constant from the upper half of the byte range (0x80..0xFF, also behind a cast) anywhere else in the
+// runtime is a second, unverified classification - e.g. a counting loop that tests `c >= (signed char)0xBF` instead of
+// asking utf8_is_continuation.
+func checkByteClassOwners(c *Check, P *CProgram, r *Rule) {
+	verified := map[string]bool{
+		"utf8_is_single_byte": true, "utf8_is_double_byte": true, "utf8_is_triple_byte": true, "utf8_is_quadruple_byte": true,
+		"utf8_is_continuation": true, "utf8_is_multibyte": true, "utf8_indicated_num_bytes": true,
+	}
+	var names []string
+	for n := range P.Funcs {
+		names = append(names, n)
+	}
+	sort.Strings(names)
+	owners := 0
+	for _, name := range names {
+		f := P.Funcs[name]
+		if !strings.HasPrefix(f.Unit, "lib/runtime/") || f.Body == nil {
+			continue
+		}
+		var lines []string
+		f.Body.walk(func(m *CNode) bool {
+			if m.Kind == "IntegerLiteral" {
+				if v, ok := cIntValue(m); ok && v >= 0x80 && v <= 0xFF {
+					lines = append(lines, fmt.Sprint(m.line))
+				}
+			}
+			return true
+		})
+		if len(lines) == 0 {
+			continue
+		}
+		if verified[name] {
+			owners++
+			r.AddAt(OK, "C "+name+"|classifies bytes", f.Pos(), "one of the classification functions whose table is evaluated over all byte values (R12.3)")
+			continue
+		}
+		r.AddAt(Bad, "C "+name+"|classifies bytes", f.Pos(), "compares or masks bytes with constants of the upper half of the byte range (line "+strings.Join(uniq(lines), ", ")+") outside the verified classification functions: a second classification of lead and continuation bytes that nothing checks - a boundary that is off by one miscounts or mis-splits every character containing that byte")
+	}
+	if owners < 5 {
+		r.AddAt(Undecided, "C utf8 classification functions", "-", "fewer than 5 of the verified classification functions were found")
+	}
+}
